@@ -526,7 +526,9 @@ func (s *State) diffIOSACLs(al, bl []*cmd, diff []edit.Range) {
 					func(c *cmd) bool { return getIOSAction(c) != action0 })
 				p := s.printNetspocCmd(b)
 				p = stripLogRX.ReplaceAllLiteralString(p, "")
-				if cmdPos, found := delMap[p]; found {
+				// Line from device can only be moved once,
+				// if ACL from Netspoc has duplicate lines.
+				if cmdPos, found := delMap[p]; found && cmdPos.cmd != nil {
 					moveACL(cmdPos, b, r.LowA, i, moveOK, behindOK)
 				} else {
 					addACL(b, r.LowA, i)
